@@ -25,6 +25,15 @@ theorem pk_s4 (c e : Nat) (hc : c < 64) (he : e < 64) : c * 64 + e < 2 ^ 12 := b
 theorem pk_s5 (c : Nat) : c * 64 % 2 ^ 6 = 0 := by omega
 theorem pk_s6 (e : Nat) (he : e < 64) : e < 2 ^ 6 := by omega
 
+/-- bridge: the masks and shift counts of `pack_vec` as extracted from the source -/
+theorem packOps_eq : packOps = [(0xFF, 1, 18), (0xFF00, 1, 4), (0xFF0000, 0, 10), (0xFF000000, 0, 24)] := by decide +kernel
+
+theorem packDword_unfold (d : Nat) : packDword d =
+    ((((d &&& 0xFF) <<< 18) % 2^32 ||| ((d &&& 0xFF00) <<< 4) % 2^32) ||| ((d &&& 0xFF0000) >>> 10 ||| (d &&& 0xFF000000) >>> 24)) := by
+  unfold packDword
+  rw [packOps_eq]
+  rfl
+
 theorem packDword_eq (a b c e : Nat) (ha : a < 64) (hb : b < 64) (hc : c < 64) (he : e < 64) :
     bytesOf (packDword (dwordOf a b c e)) = [c % 4 * 64 + e, b % 16 * 16 + c / 4, a * 4 + b / 16, 0] := by
   have mA (x : Nat) : x &&& 0xFF = x % 256 := Nat.and_two_pow_sub_one_eq_mod x 8
@@ -34,7 +43,8 @@ theorem packDword_eq (a b c e : Nat) (ha : a < 64) (hb : b < 64) (hc : c < 64) (
     rw [show (0xFF0000 : Nat) = 0xFF <<< 16 by decide +kernel, and_shl, mA, Nat.shiftRight_eq_div_pow, Nat.shiftLeft_eq]
   have mD (x : Nat) : x &&& 0xFF000000 = x / 16777216 % 256 * 16777216 := by
     rw [show (0xFF000000 : Nat) = 0xFF <<< 24 by decide +kernel, and_shl, mA, Nat.shiftRight_eq_div_pow, Nat.shiftLeft_eq]
-  unfold packDword dwordOf
+  rw [packDword_unfold]
+  unfold dwordOf
   simp only [mA, mB, mC, mD, Nat.shiftLeft_eq, Nat.shiftRight_eq_div_pow, Nat.reducePow]
   have eA : (a + b * 256 + c * 65536 + e * 16777216) % 256 * 262144 % 4294967296 = a * 262144 := by omega
   have eB : (a + b * 256 + c * 65536 + e * 16777216) / 256 % 256 * 256 * 16 % 4294967296 = b * 4096 := by omega
